@@ -158,6 +158,7 @@ class Run(object):
         self.dead_tasks = set()
         self.all_dead = False
         self.kill_all = False  # the whole process (all tasks) dies at the crash point
+        self.epoch = 0  # incremented at every simulated process death: older file objects are dead
 
     # -- helpers ---------------------------------------------------------------------------
     def rel(self, path):
@@ -223,6 +224,15 @@ class Run(object):
         self.crashed = True
         self.crash_event = ev
         self.dead_tasks.add(task)
+        self.epoch += 1
+        # advisory locks die with their process
+        if self.kill_all or self.sched is None:
+            self.flocks.clear()
+        else:
+            for ent in self.flocks.values():
+                if ent["ex"] is not None and ent["ex"][0] == task:
+                    ent["ex"] = None
+                ent["sh"].pop(task, None)
         if self.kill_all:
             self.all_dead = True
         if self.crash_snapshot is not None:
@@ -606,6 +616,7 @@ class FileProxy(object):
         object.__setattr__(self, "_run", run)
         object.__setattr__(self, "_path", path)
         object.__setattr__(self, "_dirty", False)
+        object.__setattr__(self, "_epoch", run.epoch)
 
     def __getattr__(self, name):
         return getattr(self._f, name)
@@ -663,7 +674,8 @@ class FileProxy(object):
             return None
         run = _active()
         task = getattr(_tl, "task", 0)
-        if self._run.dead_tasks and (task in self._run.dead_tasks or self._run.crashed):
+        if self._epoch != self._run.epoch or (
+                self._run.dead_tasks and (task in self._run.dead_tasks or self._run.crashed)):
             # a dead process closes nothing: buffered bytes are lost with it
             self._discard()
             return None
